@@ -127,7 +127,7 @@ def main():
         best = None
         for fr, _ln in traceback.walk_tb(tb):
             fn = fr.f_code.co_filename
-            if "psd_tools" in fn:
+            if "psd_tools" in fn and not fn.startswith("<"):      # "<attrs generated ...>" frames are skipped
                 mod = fn.rsplit("/", 1)[-1][:-3]
                 if mod == "__init__":
                     mod = fn.rsplit("/", 2)[-2]
